@@ -280,7 +280,9 @@ class CellTrainer(Module):
         # attach/detach monitors
         if mode:
             for monitor in self.monitor_pool_.monitors:
-                monitor.register()
+                # the target of a monitor no longer exists if its cell died w/o removal
+                if monitor._observed is None or monitor._observed() is not None:
+                    monitor.register()
         else:
             for monitor in self.monitor_pool_.monitors:
                 monitor.deregister()
